@@ -55,7 +55,10 @@ def _unjit():
 _JIT = _unjit()
 FORMATS = ["ugrid", "exodus", "scrip"]
 AXES = {"pre": ["nothing", "xyz", "centres", "areas", "edges", "bounds", "all"], "history": ["fresh", "after_bigger"],
-        "api": ["to_xarray", "encode_as"]}
+        "api": ["to_xarray", "encode_as"],
+        # where the source keeps its node positions: lon/lat only, or lon/lat plus Cartesian node_x/y/z on the unit sphere or on a
+        # sphere of radius 6371.22 (MPAS / ESMF style, kilometres)
+        "source": ["lonlat", "xyz_unit", "xyz_km"]}
 _ENCODE_AS = {"ugrid": "UGRID", "exodus": "Exodus", "scrip": "SCRIP"}
 
 
@@ -106,6 +109,27 @@ def _materialise(grid, pre):
         grid.edge_node_connectivity, grid.face_edge_connectivity
     if pre in ("bounds", "all"):
         grid.bounds
+
+
+def _source_grid(mesh, source):
+    if source == "lonlat":
+        return grid_of(mesh)
+    import xarray as xr
+    radius = 1.0 if source == "xyz_unit" else 6371.22
+    lon, lat = np.array(mesh["lon"], float), np.array(mesh["lat"], float)
+    lo, la = np.deg2rad(lon), np.deg2rad(lat)
+    xyz = np.stack([np.cos(la) * np.cos(lo), np.cos(la) * np.sin(lo), np.sin(la)], axis=0) * radius
+    ds = xr.Dataset()
+    ds["mesh"] = xr.DataArray(-1, attrs={"cf_role": "mesh_topology", "topology_dimension": 2,
+                                         "node_coordinates": "node_lon node_lat",
+                                         "face_node_connectivity": "face_node_connectivity"})
+    ds["node_lon"] = xr.DataArray(lon, dims=["n_node"])
+    ds["node_lat"] = xr.DataArray(lat, dims=["n_node"])
+    for i, name in enumerate(["node_x", "node_y", "node_z"]):
+        ds[name] = xr.DataArray(xyz[i].copy(), dims=["n_node"])
+    ds["face_node_connectivity"] = xr.DataArray(np.array(mesh["faces"], dtype=np.int64), dims=["n_face", "n_max_face_nodes"],
+                                                attrs={"cf_role": "face_node_connectivity", "start_index": 0, "_FillValue": FILL})
+    return ux.Grid.from_dataset(ds)
 
 
 _BIGGER = {}
@@ -190,7 +214,7 @@ def _run(mesh, fmt, d):
                 _encode(big, f, "to_xarray")
             except Exception:  # noqa: BLE001 - the bigger grid is history only; its own round trip is checked when it is the subject
                 pass
-    grid = grid_of(mesh)
+    grid = _source_grid(mesh, d.get("source", "lonlat"))
     try:
         _materialise(grid, d["pre"])
     except Exception:  # noqa: BLE001 - outside this property (C02/C04/C05/C13 cover the derived quantities themselves)
